@@ -84,4 +84,19 @@ var props = []Prop{
 		Bounds:  "filter registered before any table exists (relation targets = handles issued later) or after one of 11 prefixes (incl. retired tables, dead targets, re-issued target ids, self-target, Reset over populated relation tables); 9 filter kinds (All, mask, without, exclusive, relation filters with any issued/zero/future target, and a relation filter whose component filter also matches non-relation tables); then 1 operation out of 10: table creation, relation-table creation, RemoveEntity, Relations.Set, Reset, Reset + re-issue + new child, and Batch.RemoveEntities / Batch.Exchange(Q) / Batch.SetRelation(Q) THROUGH the registered filter; oracle: registered vs original filter on the same world (same entities, same Count), model for batch effects, cache clauses of the structural invariant; Unregister/double register/use after unregister on 3 registrations; 2 configurations (thorough 24)",
 		Outside: "more than one operation after registration beyond the prefixes; logic-combination filters (the cache only calls Matches, decided in C04)",
 	},
+	{
+		ID: "C09",
+		Harnesses: []H{{Pkg: "ecs", Fn: "HC09_Depth", W: 4}, {Pkg: "ecs", Fn: "HC09_Depth", W: 4, Tags: "tiny"}, {Pkg: "ecs", Fn: "HC09_Sweep"}, {Pkg: "ecs", Fn: "HC09_Listener", W: 4},
+			{Pkg: "ecs", Fn: "HC09_Sweep", Tags: "tiny", Tier: "thorough"}},
+		Conform: []H{{Pkg: "ecs", Fn: "HSmoke"}},
+		Bounds:  "nesting depths 1,2,3,limit-1,limit (256 / 64 in tiny) and limit+1 (must panic), three closing orders (FIFO, LIFO, mixed exhaustion/Close), re-opening 1 / depth / limit queries afterwards; sweep: 34 structural entry points (World, Builder ids/values with and without target, Batch and Relations incl. every Q variant, calls whose filter matches nothing, type registration, LoadEntities, Reset) x 4 lock sources (plain query fresh/advanced, registered filter, batch-result query, nested depth 2 with either closing order) x 5 ways of ending a query (Next exhaustion, Step beyond the end, Close, Close after Count, Close after EntityAt), and inside removal listeners (single and batch removal): refused with exactly the documented message, observables + structural digest unchanged, lock still held, success after release; generic entry points: Map1..Map2/Exchange/Filter representatives",
+		Outside: "entry points reached only through generic arities > 2 (they delegate to the swept ID-based calls); lock sources nested deeper than 2 in the sweep (depth harness covers nesting up to the limit)",
+	},
+	{
+		ID: "C10",
+		Harnesses: []H{{Pkg: "ecs", Fn: "HC10_Illegal"}, {Pkg: "ecs", Fn: "HC10_Illegal", Tags: "tiny", Tier: "thorough"}},
+		Conform: []H{{Pkg: "ecs", Fn: "HSmoke"}, {Pkg: "ecs", Fn: "HConf_Prefixes"}},
+		Bounds:  "6 prefixes x 1 (thorough: 2) failed call(s) out of 9 illegal classes with all arguments symbolic and constrained only to be illegal per the documentation: Add/Remove/Exchange (dead or recycled entity, present/absent component, second relation), Assign (incl. no components), every accessor/mutator on a removed entity, Set / write through Get on a missing component, creation with two relations / target without relation / relation not among the components / non-relation named as relation (ids and values), duplicate ids (NewEntity, NewEntityWith, Add, Remove, Exchange), non-positive batch counts (fully symbolic count <= 0, NewBatch and NewBatchQ), Relations.Set and Relations.Exchange / Builder.Add with target (dead entity, wrong component, dead target, no effect); asserted: panic, then all observables = model, structural invariant, pool/index/row digest unchanged, world unlocked, and two further legal operations behave per the model; 2 configurations (thorough 24). Out-of-range query indices and non-positive steps are decided in C03, filter double (un)registration in C07, resources in C20, type limit in C16, LoadEntities in C17.",
+		Outside: "empty graph nodes / tables left behind by a failed graph walk (visible only through Stats().Nodes, not an observable named by the property); sequences of more than two failed calls",
+	},
 }
